@@ -1371,17 +1371,15 @@ impl TextSelectionSet {
         if self.is_empty() {
             None
         } else {
-            if self.sorted {
-                self.data.get(self.data.len() - 1)
-            } else {
-                let mut rightmost: Option<&TextSelection> = None;
-                for item in self.iter() {
-                    if rightmost.is_none() || item.end > rightmost.unwrap().end {
-                        rightmost = Some(item);
-                    }
+            //note: a sorted set is sorted by begin offset first, so its last item
+            //is not necessarily the one with the highest end offset, we always have to look
+            let mut rightmost: Option<&TextSelection> = None;
+            for item in self.iter() {
+                if rightmost.is_none() || item.end > rightmost.unwrap().end {
+                    rightmost = Some(item);
                 }
-                rightmost
             }
+            rightmost
         }
     }
 
